@@ -40,7 +40,7 @@ for _c in tr.CLASSES:
     OBLIGATIONS["class:" + _c] = 30
 OBLIGATIONS.update({"branch:power-lam": 50, "branch:yj-lam": 50,
                     "branch:manly-lam0": 10, "monotone-pairs": 1000,
-                    "adjacent-floats": 50})
+                    "adjacent-floats": 50, "jacobian-before-forward": 100})
 
 
 def call(fn, *a):
@@ -105,7 +105,30 @@ def run_config(ctx, case):
         return
     ctx.evaluated(len(x))
     ctx.api(f"{name}.forward", 9)
-    ctx.api(f"{name}.jacobian")
+    ctx.api(f"{name}.jacobian", 3)
+    # the Jacobian of a freshly configured object, asked for BEFORE any forward /
+    # backward call, and the Jacobian of an object that was used with other
+    # parameters first: both must be the derivative of the current forward
+    Jfresh = Jreused = None
+    try:
+        Jfresh = np.asarray(call(t.jacobian, x.copy()), dtype=float)
+        _, hpar, _ = tr.gen_config(np.random.default_rng(int(case["seed"]) + 1), name,
+                                   int(case["seed"]) % 97)
+        hpar = {k: v for k, v in hpar.items() if k in par}
+        if hpar:
+            t2, _ = tr.make(name, ctor, hpar)
+            call(t2.forward, x.copy())
+            call(t2.jacobian, x.copy())
+            for k, v in par.items():
+                t2[k] = v
+            a2 = {str(n): float(v) for n, v in zip(t2.params.names, t2.params.values)}
+            a2.update({str(n): float(v) for n, v in zip(t2.constants.names,
+                                                        t2.constants.values)})
+            if a2 == actual:
+                Jreused = np.asarray(call(t2.jacobian, x.copy()), dtype=float)
+    except Exception as e:
+        ctx.check("jacobian.runs", False, f"{name}|jacobian-first-raises", case,
+                  {"exc": repr(e), "params": actual})
     try:
         D0, _ = stencil(t, x, 2 * h)
         D1, mag = stencil(t, x, h)
@@ -136,6 +159,17 @@ def run_config(ctx, case):
               case, lambda: {"x": float(x[bad[0]]), "jacobian": float(J[bad[0]]),
                              "finite_difference": float(D2[bad[0]]),
                              "h": float(h[bad[0]]), "params": actual, "ctor": ctor})
+    for label, Jx in (("fresh-object", Jfresh), ("reused-object", Jreused)):
+        if Jx is None or Jx.shape != J.shape:
+            continue
+        ctx.tag("jacobian-before-forward")
+        same = (Jx == J) | (np.isnan(Jx) & np.isnan(J))
+        badh = np.where(~same)[0]
+        ctx.check("jacobian.history-independent", len(badh) == 0,
+                  f"{name}|jacobian-depends-on-call-history|{label}", case,
+                  lambda: {"x": float(x[badh[0]]), "jacobian_first": float(Jx[badh[0]]),
+                           "jacobian_after_forward": float(J[badh[0]]),
+                           "params": actual})
     # positivity / definedness on the whole (interior) sample
     badp = np.where(~(J > 0))[0]
     ctx.check("jacobian.positive", len(badp) == 0, keyb + "|jacobian-not-positive",
